@@ -15,22 +15,32 @@
 (*                     versions first;) _serialize; _serialize_jobs        *)
 (* An exception inside the locked function releases the lock and re-       *)
 (* creates the marker on purpose ("a deadlock will occur").                *)
+(* Crash histories: an operation written "op!k" in a script is killed      *)
+(* after its k-th file write (the writes of one update, in the code's      *)
+(* order: config version file, config data file, job-status version file,  *)
+(* job-status data file); the dead process' lock marker stays and is       *)
+(* broken only by a lock library that breaks stale markers (Modern), for   *)
+(* a process on the same host.  The version file is written first, so an   *)
+(* interrupted update leaves the version file ahead of the data and every  *)
+(* older handle fenced out.                                                *)
 (***************************************************************************)
 EXTENDS JadeMonitor, Json
 
 CONSTANTS Scripts,   \* <<[host |-> "h1", ops |-> <<"loadp", "update", "demote">>], ...>>  one handle per process
           Scn, Log,
-          FixedF9    \* TRUE: update validates both version files before writing either (fix: commit); FALSE: pinned order
+          FixedF9,   \* TRUE: update validates both version files before writing either (fix: commit); FALSE: pinned order
+          Modern     \* lock library breaks a dead same-host process' marker and JADE's deliberate (malformed) marker
 
 H == 1..Len(Scripts)
 Ops == {"load", "loadp", "promote", "demote", "update", "jsonly", "cancel"}
 
 VARIABLES cfg, cfgVerF, js, jsVerF,   \* disk
-          lock,                        \* "free" | "deliberate"
+          lock,                        \* "free" | "deliberate" | "dead" (marker of a killed process)
+          deadHost,                    \* host of the killed process whose marker is in place
           hd,                          \* [H -> [pc, loaded, cfg, wcfg, js, role]]
           m, path, elog
 
-vars == <<cfg, cfgVerF, js, jsVerF, lock, hd, m, path, elog>>
+vars == <<cfg, cfgVerF, js, jsVerF, lock, deadHost, hd, m, path, elog>>
 None == ""
 NoCfg == [sub |-> None, pay |-> 0, canceled |-> FALSE, ver |-> 0]
 NoJs == [pay |-> 0, ver |-> 0]
@@ -43,16 +53,24 @@ Init ==
   \* after Cluster.create (versions 1/1) and the creator's demotion (config version 2)
   /\ cfg = [sub |-> None, pay |-> 0, canceled |-> FALSE, ver |-> 2] /\ cfgVerF = 2
   /\ js = [pay |-> 0, ver |-> 1] /\ jsVerF = 1
-  /\ lock = "free"
+  /\ lock = "free" /\ deadHost = None
   /\ hd = [h \in H |-> [pc |-> 1, loaded |-> FALSE, cfg |-> NoCfg, wcfg |-> NoCfg, js |-> NoJs, role |-> FALSE]]
   /\ m = MonInit(Scn) /\ path = <<>> /\ elog = <<>>
 
-Op(h) == Scripts[h].ops[hd[h].pc]
+RawOp(h) == Scripts[h].ops[hd[h].pc]
+CrashTable == ("loadp!1" :> <<"loadp", 1>>) @@ ("promote!1" :> <<"promote", 1>>) @@ ("demote!1" :> <<"demote", 1>>) @@
+              ("cancel!1" :> <<"cancel", 1>>) @@ ("jsonly!1" :> <<"jsonly", 1>>) @@ ("update!1" :> <<"update", 1>>) @@
+              ("update!2" :> <<"update", 2>>) @@ ("update!3" :> <<"update", 3>>)
+Op(h) == IF RawOp(h) \in DOMAIN CrashTable THEN CrashTable[RawOp(h)][1] ELSE RawOp(h)
+CrashAt(h) == IF RawOp(h) \in DOMAIN CrashTable THEN CrashTable[RawOp(h)][2] ELSE 0
 Host(h) == Scripts[h].host
+\* the lock can be taken: no marker, or a marker the lock library breaks
+Avail(h) == lock = "free" \/ (Modern /\ (lock = "deliberate" \/ (lock = "dead" /\ deadHost = Host(h))))
 
 \* the event the harness records for one API operation of a handle
 EvCop(h, op, exc, changed, wc, wj, ok) ==
   [e |-> "cop", pid |-> h, op |-> op, hcver |-> hd[h].cfg.ver, hjver |-> hd[h].js.ver, dcver |-> cfgVerF, djver |-> jsVerF,
+   ddcver |-> cfg.ver, ddjver |-> js.ver,
    exc |-> exc, changed |-> changed, wcfg |-> wc, wjs |-> wj, ok |-> ok, before |-> cfg.sub, host |-> Host(h),
    loaded |-> hd[h].loaded]
 
@@ -67,32 +85,60 @@ SerJs(h, s) ==
   ELSE LET s1 == [s EXCEPT !.ver = @ + 1] IN [exc |-> "", js |-> s1, verf |-> s1.ver, copy |-> s1]
 
 Advance(h, rec) == hd' = [hd EXCEPT ![h] = [rec EXCEPT !.pc = @ + 1]]
-Raise == lock' = "deliberate"
+Raise == lock' = "deliberate" /\ deadHost' = None
+\* the operation ends normally: its own marker is removed (a broken marker of somebody else is gone too)
+Release == lock' = "free" /\ deadHost' = None
 
-\* an operation attempted while the marker is in place never gets the lock (Timeout), nothing changes
+\* ---- how many file writes the next operation of h would perform in the current state (0: it writes nothing)
+CfgTarget(h) ==
+  LET c == hd[h].cfg IN
+  CASE Op(h) = "promote" -> [c EXCEPT !.sub = Host(h)]
+    [] Op(h) = "demote" -> [c EXCEPT !.sub = None]
+    [] OTHER -> [c EXCEPT !.canceled = TRUE]
+NumWrites(h) ==
+  CASE Op(h) = "load" -> 0
+    [] Op(h) = "loadp" -> IF cfg.sub = None /\ cfg.ver = cfgVerF THEN 2 ELSE 0
+    [] Op(h) \in {"promote", "demote", "cancel"} ->
+         IF ~hd[h].loaded \/ (Op(h) = "promote" /\ hd[h].cfg.sub # None) \/ (Op(h) = "demote" /\ hd[h].cfg.sub # Host(h)) THEN 0
+         ELSE LET r == Ser(h, CfgTarget(h)) IN IF r.exc = "" /\ r.verf # cfgVerF THEN 2 ELSE 0
+    [] Op(h) = "jsonly" -> IF hd[h].loaded /\ SerJs(h, [hd[h].js EXCEPT !.pay = @ + 1]).exc = "" THEN 2 ELSE 0
+    [] Op(h) = "update" ->
+         IF ~hd[h].loaded THEN 0
+         ELSE LET c1 == [hd[h].cfg EXCEPT !.pay = @ + 1]
+                  s1 == [hd[h].js EXCEPT !.pay = @ + 1]
+                  r == Ser(h, c1)
+                  q == SerJs(h, s1) IN
+              IF (FixedF9 /\ (c1.ver # cfgVerF \/ s1.ver # jsVerF)) \/ r.exc # "" THEN 0
+              ELSE (IF r.verf # cfgVerF THEN 2 ELSE 0) + (IF q.exc = "" THEN 2 ELSE 0)
+    [] OTHER -> 0
+\* the operation is one that gets killed part-way (it performs more writes than the crash point allows)
+Dies(h) == CrashAt(h) > 0 /\ NumWrites(h) > CrashAt(h)
+
+\* an operation attempted while a marker is in place that the lock library does not break never gets the lock
+\* (Timeout), nothing changes
 \* callers demote only what they were promoted to (`if not promoted: exit` ... `finally: demote`): no lock is taken
 Skippable(h) == Op(h) = "demote" /\ ~hd[h].role /\ hd[h].loaded
 Skip(h) ==
   /\ hd[h].pc <= Len(Scripts[h].ops) /\ Skippable(h)
   /\ Advance(h, hd[h]) /\ Feed(<<"Skip", h>>, <<>>)
-  /\ UNCHANGED <<cfg, cfgVerF, js, jsVerF, lock>>
+  /\ UNCHANGED <<cfg, cfgVerF, js, jsVerF, lock, deadHost>>
 
 \* a process whose load failed has no Cluster object: its script ends
 Abort(h) ==
   /\ hd[h].pc <= Len(Scripts[h].ops) /\ ~hd[h].loaded /\ Op(h) \notin {"load", "loadp"}
   /\ hd' = [hd EXCEPT ![h].pc = Len(Scripts[h].ops) + 1] /\ Feed(<<"Skip", h>>, <<>>)
-  /\ UNCHANGED <<cfg, cfgVerF, js, jsVerF, lock>>
+  /\ UNCHANGED <<cfg, cfgVerF, js, jsVerF, lock, deadHost>>
 
 Blocked(h) ==
-  /\ hd[h].pc <= Len(Scripts[h].ops) /\ lock = "deliberate" /\ ~Skippable(h)
+  /\ hd[h].pc <= Len(Scripts[h].ops) /\ ~Avail(h) /\ ~Skippable(h)
   /\ (hd[h].loaded \/ Op(h) \in {"load", "loadp"})
   /\ Advance(h, hd[h])
   /\ Feed(<<"Blocked", h>>, <<EvCop(h, Op(h), "Timeout", FALSE, FALSE, FALSE, FALSE)>>)
-  /\ UNCHANGED <<cfg, cfgVerF, js, jsVerF, lock>>
+  /\ UNCHANGED <<cfg, cfgVerF, js, jsVerF, lock, deadHost>>
 
 \* Cluster.deserialize(path, try_promote_to_submitter=p, deserialize_jobs=True): a fresh handle
 Load(h, p) ==
-  /\ hd[h].pc <= Len(Scripts[h].ops) /\ lock = "free" /\ Op(h) = (IF p THEN "loadp" ELSE "load")
+  /\ hd[h].pc <= Len(Scripts[h].ops) /\ Avail(h) /\ ~Dies(h) /\ Op(h) = (IF p THEN "loadp" ELSE "load")
   /\ LET fresh == [hd[h] EXCEPT !.loaded = TRUE, !.cfg = cfg, !.wcfg = NoCfg, !.js = js, !.role = FALSE] IN
      IF p /\ cfg.sub = None
        THEN LET c == [cfg EXCEPT !.sub = Host(h)]
@@ -105,50 +151,48 @@ Load(h, p) ==
                    /\ cfg' = c1 /\ cfgVerF' = c1.ver
                    /\ Advance(h, [fresh EXCEPT !.cfg = c1, !.wcfg = c1, !.role = TRUE])
                    /\ Feed(<<"Load", h>>, <<[EvCop(h, Op(h), "", TRUE, TRUE, FALSE, TRUE) EXCEPT !.hcver = cfg.ver, !.hjver = js.ver]>>)
-                   /\ UNCHANGED <<js, jsVerF, lock>>
+                   /\ Release /\ UNCHANGED <<js, jsVerF>>
        ELSE /\ Advance(h, fresh)
             /\ Feed(<<"Load", h>>, <<[EvCop(h, Op(h), "", FALSE, FALSE, FALSE, FALSE) EXCEPT !.hcver = cfg.ver, !.hjver = js.ver]>>)
-            /\ UNCHANGED <<cfg, cfgVerF, js, jsVerF, lock>>
+            /\ Release /\ UNCHANGED <<cfg, cfgVerF, js, jsVerF>>
 
 \* a cfg-only operation on an existing handle: promote_to_submitter / demote_from_submitter / mark_canceled
 CfgOp(h) ==
-  /\ hd[h].pc <= Len(Scripts[h].ops) /\ lock = "free" /\ Op(h) \in {"promote", "demote", "cancel"} /\ hd[h].loaded
+  /\ hd[h].pc <= Len(Scripts[h].ops) /\ Avail(h) /\ ~Dies(h) /\ Op(h) \in {"promote", "demote", "cancel"} /\ hd[h].loaded
   /\ ~Skippable(h)
   /\ LET c == hd[h].cfg
          op == Op(h) IN
      IF op = "promote" /\ c.sub # None
        THEN \* has_submitter() on the handle's copy: returns False, nothing is written
             /\ Advance(h, hd[h]) /\ Feed(<<"CfgOp", h>>, <<EvCop(h, op, "", FALSE, FALSE, FALSE, FALSE)>>)
-            /\ UNCHANGED <<cfg, cfgVerF, js, jsVerF, lock>>
+            /\ Release /\ UNCHANGED <<cfg, cfgVerF, js, jsVerF>>
      ELSE IF op = "demote" /\ c.sub # Host(h)
        THEN \* assert self.am_i_submitter()
             /\ Advance(h, hd[h]) /\ Raise /\ Feed(<<"CfgOp", h>>, <<EvCop(h, op, "AssertionError", FALSE, FALSE, FALSE, FALSE)>>)
             /\ UNCHANGED <<cfg, cfgVerF, js, jsVerF>>
-     ELSE LET c1 == CASE op = "promote" -> [c EXCEPT !.sub = Host(h)]
-                      [] op = "demote" -> [c EXCEPT !.sub = None]
-                      [] OTHER -> [c EXCEPT !.canceled = TRUE]
+     ELSE LET c1 == CfgTarget(h)
               r == Ser(h, c1) IN
           /\ cfg' = r.cfg /\ cfgVerF' = r.verf
           /\ Advance(h, [hd[h] EXCEPT !.cfg = r.copy, !.wcfg = r.w,
                                       !.role = IF r.exc = "" THEN (IF op = "promote" THEN TRUE ELSE IF op = "demote" THEN FALSE ELSE @) ELSE @])
-          /\ (IF r.exc # "" THEN Raise ELSE UNCHANGED lock)
+          /\ (IF r.exc # "" THEN Raise ELSE Release)
           /\ Feed(<<"CfgOp", h>>, <<EvCop(h, op, r.exc, r.cfg # cfg, TRUE, FALSE, op = "promote" /\ r.exc = "")>>)
           /\ UNCHANGED <<js, jsVerF>>
 
 \* a job-status-only write (serialize_jobs after a change, e.g. complete_hpc_job_id)
 JsOp(h) ==
-  /\ hd[h].pc <= Len(Scripts[h].ops) /\ lock = "free" /\ Op(h) = "jsonly" /\ hd[h].loaded
+  /\ hd[h].pc <= Len(Scripts[h].ops) /\ Avail(h) /\ ~Dies(h) /\ Op(h) = "jsonly" /\ hd[h].loaded
   /\ LET s1 == [hd[h].js EXCEPT !.pay = @ + 1]
          r == SerJs(h, s1) IN
      /\ js' = r.js /\ jsVerF' = r.verf
      /\ Advance(h, [hd[h] EXCEPT !.js = r.copy])
-     /\ (IF r.exc # "" THEN Raise ELSE UNCHANGED lock)
+     /\ (IF r.exc # "" THEN Raise ELSE Release)
      /\ Feed(<<"JsOp", h>>, <<EvCop(h, "jsonly", r.exc, r.js # js, FALSE, TRUE, FALSE)>>)
      /\ UNCHANGED <<cfg, cfgVerF>>
 
 \* update_job_status: both copies change, then _serialize, then _serialize_jobs
 Update(h) ==
-  /\ hd[h].pc <= Len(Scripts[h].ops) /\ lock = "free" /\ Op(h) = "update" /\ hd[h].loaded
+  /\ hd[h].pc <= Len(Scripts[h].ops) /\ Avail(h) /\ ~Dies(h) /\ Op(h) = "update" /\ hd[h].loaded
   /\ LET c1 == [hd[h].cfg EXCEPT !.pay = @ + 1]
          s1 == [hd[h].js EXCEPT !.pay = @ + 1]
          early == FixedF9 /\ (c1.ver # cfgVerF \/ s1.ver # jsVerF)
@@ -167,13 +211,32 @@ Update(h) ==
           /\ cfg' = r.cfg /\ cfgVerF' = r.verf
           /\ js' = q.js /\ jsVerF' = q.verf
           /\ Advance(h, [hd[h] EXCEPT !.cfg = r.copy, !.wcfg = r.w, !.js = q.copy])
-          /\ (IF q.exc # "" THEN Raise ELSE UNCHANGED lock)
+          /\ (IF q.exc # "" THEN Raise ELSE Release)
           /\ Feed(<<"Update", h>>, <<EvCop(h, "update", q.exc, r.cfg # cfg \/ q.js # js, TRUE, TRUE, FALSE)>>)
 
+\* the process is killed inside its operation after CrashAt(h) of the operation's file writes: the version file of an
+\* update is written before its data file, so what stays behind is a version file ahead of (never behind) its data
+Crash(h) ==
+  /\ hd[h].pc <= Len(Scripts[h].ops) /\ Avail(h) /\ Dies(h) /\ (hd[h].loaded \/ Op(h) = "loadp") /\ ~Skippable(h)
+  /\ LET k == CrashAt(h)
+         isJs == Op(h) = "jsonly"
+         isUpd == Op(h) = "update"
+         c1 == [hd[h].cfg EXCEPT !.pay = @ + 1]
+         r == IF isUpd THEN Ser(h, c1) ELSE [cfg |-> cfg, verf |-> cfgVerF]
+         q == IF isUpd THEN SerJs(h, [hd[h].js EXCEPT !.pay = @ + 1]) ELSE [js |-> js, verf |-> jsVerF] IN
+     /\ cfgVerF' = IF isJs THEN cfgVerF ELSE cfgVerF + 1
+     /\ cfg' = IF isUpd /\ k >= 2 THEN r.cfg ELSE cfg
+     /\ jsVerF' = IF isJs \/ (isUpd /\ k >= 3) THEN jsVerF + 1 ELSE jsVerF
+     /\ js' = js
+  /\ hd' = [hd EXCEPT ![h].pc = Len(Scripts[h].ops) + 1, ![h].role = FALSE]
+  /\ lock' = "dead" /\ deadHost' = Host(h)
+  /\ Feed(<<"Crash", h>>, <<[e |-> "kill", pid |-> h]>>)
+
 Next == \E h \in H : Skip(h) \/ Abort(h) \/ Blocked(h) \/ Load(h, TRUE) \/ Load(h, FALSE) \/ CfgOp(h) \/ JsOp(h) \/ Update(h)
+                      \/ Crash(h)
 Spec == Init /\ [][Next]_vars
 
-View == <<cfg, cfgVerF, js, jsVerF, lock, hd, [m EXCEPT !.pos = 0, !.vpos = <<>>, !.cnt = <<>>]>>
+View == <<cfg, cfgVerF, js, jsVerF, lock, deadHost, hd, [m EXCEPT !.pos = 0, !.vpos = <<>>, !.cnt = <<>>]>>
 Finished == \A h \in H : hd[h].pc > Len(Scripts[h].ops)
 
 \* ---- C10
@@ -182,6 +245,9 @@ P_C10 == Holds(m, "C10")
 N_OneRole == Cardinality({h \in H : hd[h].role}) <= 1
 N_RoleMatchesDisk == \A h \in H : hd[h].role => cfg.sub = Host(h)
 N_VersionFilesAgree == cfg.ver = cfgVerF /\ js.ver = jsVerF
+\* with crashes: a version file is never behind its data file (the order of the two writes), and is ahead only after a crash
+N_VersionFileNeverBehind == cfgVerF >= cfg.ver /\ jsVerF >= js.ver
+N_AheadOnlyAfterCrash == (cfgVerF # cfg.ver \/ jsVerF # js.ver) => m.faulty
 
 DumpBehaviour == (Log /\ Finished) => PrintT(<<"BEHAVIOUR", ToJson([scn |-> Scn.id, path |-> path, elog |-> elog])>>)
 =============================================================================
